@@ -890,11 +890,7 @@ where
             // op was created. Other write ops of the entry may have been created,
             // applied or skipped since then, possibly in a different order.)
             let _ = (old_weight, new_weight);
-            let info = entry.entry_info();
-            let latest_weight = info.policy_weight();
-            counters.saturating_sub(0, info.accounted_weight());
-            counters.saturating_add(0, latest_weight);
-            info.set_accounted_weight(latest_weight);
+            Self::refresh_accounted_weight(entry.entry_info(), counters);
             deqs.move_to_back_ao(&entry);
             deqs.move_to_back_wo(&entry);
             return;
@@ -984,6 +980,17 @@ where
                 // justified. Admit the candidate and evict nobody now; if the cache
                 // is really over its capacity, the size-based eviction at the end of
                 // this sync run will restore it.
+                for node in &s {
+                    // What an updated victim occupies is known already.
+                    let elem = unsafe { &node.as_ref().element };
+                    if let Some(e) = self
+                        .cache
+                        .get(elem.key())
+                        .filter(|v| std::ptr::eq(&**v.entry_info(), elem.entry_info()))
+                    {
+                        Self::refresh_accounted_weight(e.entry_info(), counters);
+                    }
+                }
                 skipped_nodes = s;
                 self.handle_admit(kh, &entry, new_weight, deqs, counters);
             }
@@ -1131,6 +1138,15 @@ where
         } else {
             AdmissionResult::Rejected { skipped_nodes }
         }
+    }
+
+    /// Brings the weight that the counters hold for an admitted entry up to the weight
+    /// of its latest value.
+    fn refresh_accounted_weight(info: &EntryInfo<K>, counters: &mut EvictionCounters) {
+        let latest_weight = info.policy_weight();
+        counters.saturating_sub(0, info.accounted_weight());
+        counters.saturating_add(0, latest_weight);
+        info.set_accounted_weight(latest_weight);
     }
 
     fn handle_admit(
